@@ -97,6 +97,13 @@ func (sc *siteCollector) expr(slot *hs.Expr, cx *fctx) {
 							n.Args[i] = lit
 						})
 					}
+					if lit, ok := litOfType(pt).(*hs.FnLit); ok && len(lit.Params) >= 2 {
+						// the same parameters in another order: arguments are passed by position
+						sc.add(reftype.RArg, "closure-argument-parameters-reordered", cx, []string{kind}, func() {
+							lit.Params[0], lit.Params[1] = lit.Params[1], lit.Params[0]
+							n.Args[i] = lit
+						})
+					}
 					if lit, ok := litOfType(pt).(*hs.FnLit); ok {
 						sc.add(reftype.RArg, "closure-argument-return-type", cx, []string{kind}, func() {
 							if lit.Ret != nil && lit.Ret.K == hs.KStr {
